@@ -87,12 +87,29 @@ def _chain_shape(run: Run, cm, fi: FuncInfo) -> None:
     run.instance("R08.1", cm.loc(loop_stmt), f"every iteration starts with `{lvar}.evaluate({pvalue}, {ppath})` on the chain's own value", ok=ok)
     if not ok:
         run.violation("R08.1", cm, fi.qualname, first or loop_stmt, "the member loop does not evaluate every member on the chain's own (unmodified) value as its first step: members could be skipped or see a different value")
-    # a failing member result is returned
-    rest = body[1:]
-    ok = len(rest) == 1 and isinstance(rest[0], ast.If) and isinstance(rest[0].test, ast.UnaryOp) and isinstance(rest[0].test.op, ast.Not) and ast.unparse(rest[0].test.operand) == f"{evar}.valid" and len(rest[0].body) == 1 and isinstance(rest[0].body[0], ast.Return) and is_name(rest[0].body[0].value, evar or "\0") and not rest[0].orelse
-    run.instance("R08.1", cm.loc(loop_stmt), "the loop body is exactly: evaluate; `if not result.valid: return result`", ok=ok)
-    if not ok:
-        run.violation("R08.1", cm, fi.qualname, rest[0] if rest else loop_stmt, "the member loop does something other than returning the first failing member's result (break / continue / accumulate-and-ignore / early accept)")
+    # no iteration is cut short, nothing accepts inside the loop, and the member's verdict is not ignored
+    jumps = [x for st in body for x in ast.walk(st) if isinstance(x, (ast.Break, ast.Continue))]
+    run.instance("R08.1", cm.loc(loop_stmt), "the member loop contains no break / continue", ok=not jumps)
+    for j in jumps:
+        run.violation("R08.1", cm, fi.qualname, j, "the member loop is cut short (break/continue): a later member that rejects the value is never consulted")
+    inner_rets = [n for n in cfg.nodes if isinstance(n.ast, ast.Return) and any(n.ast is x for st in body for x in ast.walk(st))]
+    used = False
+    for rn in inner_rets:
+        conds2 = branch_conditions(cfg, rn.id)
+        failing = any((isinstance(t, ast.UnaryOp) and isinstance(t.op, ast.Not) and ast.unparse(t.operand) == f"{evar}.valid" and val is True) or (ast.unparse(t) == f"{evar}.valid" and val is False) for t, val in conds2)
+        used = used or failing
+        v = rn.ast.value  # type: ignore[union-attr]
+        okr = failing and (is_name(v, evar or "\0") or _result_valid(v) is False)
+        run.instance("R08.1", cm.loc(rn.ast), f"a return inside the member loop hands back a failing result (under `not {evar}.valid`)", ok=okr)
+        if not okr:
+            run.violation("R08.1", cm, fi.qualname, rn.ast, "a return inside the member loop is not the rejection of a failing member (early accept, or a failing result replaced by something else)")
+    if not used:
+        # accumulation idiom: errors gathered and decided after the loop
+        acc = [x for st in body for x in ast.walk(st) if isinstance(x, ast.Call) and isinstance(x.func, ast.Attribute) and x.func.attr in ("extend", "append") and evar and evar in names_in(x)]
+        used = bool(acc)
+    run.instance("R08.1", cm.loc(loop_stmt), "each member's verdict is acted upon (fail-fast return or accumulation)", ok=used)
+    if not used:
+        run.violation("R08.1", cm, fi.qualname, loop_stmt, "the result of evaluating a member is ignored: a rejecting member does not make the chain reject")
     # all returns of the function
     for rn in [n for n in cfg.nodes if isinstance(n.ast, ast.Return)]:
         v = rn.ast.value  # type: ignore[union-attr]
